@@ -88,9 +88,10 @@ class SetTypes:
                     if isinstance(t, ast.Name):
                         ls.add(t.id, (n.end_lineno, n.end_col_offset), self.is_set(n.value, base, clsq))
                     elif isinstance(t, (ast.Tuple, ast.List)):
-                        for e in t.elts:
+                        pair = isinstance(n.value, (ast.Tuple, ast.List)) and len(n.value.elts) == len(t.elts)
+                        for k_, e in enumerate(t.elts):
                             if isinstance(e, ast.Name):
-                                ls.add(e.id, (n.end_lineno, n.end_col_offset), False)
+                                ls.add(e.id, (n.end_lineno, n.end_col_offset), self.is_set(n.value.elts[k_], base, clsq) if pair else False)
             elif isinstance(n, ast.AnnAssign) and isinstance(n.target, ast.Name) and n.value is not None:
                 ls.add(n.target.id, (n.end_lineno, n.end_col_offset), self.is_set(n.value, base, clsq))
             elif isinstance(n, (ast.For, ast.comprehension)):
@@ -111,9 +112,10 @@ class SetTypes:
                         if isinstance(t, ast.Name):
                             cand.setdefault(t.id, []).append(self.is_set(n.value, loc, clsq))
                         elif isinstance(t, (ast.Tuple, ast.List)):
-                            for e in t.elts:
+                            pair = isinstance(n.value, (ast.Tuple, ast.List)) and len(n.value.elts) == len(t.elts)
+                            for k_, e in enumerate(t.elts):
                                 if isinstance(e, ast.Name):
-                                    cand.setdefault(e.id, []).append(False)
+                                    cand.setdefault(e.id, []).append(self.is_set(n.value.elts[k_], loc, clsq) if pair else False)
                 elif isinstance(n, ast.AnnAssign) and isinstance(n.target, ast.Name) and n.value is not None:
                     cand.setdefault(n.target.id, []).append(self.is_set(n.value, loc, clsq))
                 elif isinstance(n, ast.AugAssign) and isinstance(n.target, ast.Name):
